@@ -5,7 +5,8 @@ TARGETS = ["theories/Properties/C05.v"]
 RULE = ("scripted families (1-20: plain acceptance + duplicates; every add_appointment reply class on the notification path and on the retry "
         "path; outage / give-up / manual and automatic recovery; subscription error with every renewal outcome; every registration class; "
         "SIGKILL at quiescent and at scripted moments (also racing an un-awaited notification and a retrier delivering a batch); abandon and "
-        "re-registration; misbehaviour; revocations in every retrier state) + random scenarios over 1-2 towers (5-10 steps of revocation, "
+        "re-registration; misbehaviour; revocations in every retrier state; family 31: one appointment linked to two towers as accepted / "
+        "pending / invalid in every combination, then either tower abandoned, then a restart) + random scenarios over 1-2 towers (5-10 steps of revocation, "
         "duplicate, reply-class switch, outage, settle, manual retry, abandon, registration class, kill(+racing notification)/start, "
         "auto-retry wake, sleep; ending with every tower accepting and a settle). Observation after EVERY step: listtowers, gettowerinfo per "
         "tower, the seven tables (one read transaction), the towers' request logs with timestamps. Monitor C05 on the implementation: every "
